@@ -85,15 +85,15 @@ func vCheckCandidates(src, tgt string) (string, int) {
 	return "", len(mrs)
 }
 
-var vC17Alphabet = []string{"a", "b", " ", ".", "\n", "\xff", "é", "\xef\xbf\xbd", " ", ",", "漢", "́", " ", "-", "\xe2\x80"}
+var vC17Alphabet = []string{"a", "b", " ", ".", "\n", "\xff", "é", "\xef\xbf\xbd", "\x00", "\u00ad", "\u200b", "\ufeff", "\x1b", "\ue000", "\u0085", "\v", " ", ",", "漢", "́", " ", "-", "\xe2\x80"}
 
 func TestVerifC17(t *testing.T) {
 	e := vStart(t, "C17")
 	defer e.finish()
 
 	// (1) tokenizer: exhaustive strings over a small hostile alphabet
-	L := e.pick(6, 7)
-	alpha := vC17Alphabet[:8]
+	L := e.pick(5, 6)
+	alpha := vC17Alphabet[:10]
 	idx := 0
 	total := 1
 	for l := 0; l < L; l++ {
